@@ -8,6 +8,8 @@ CLAIMED = {
 }
 CLAIMED['C02'] = dict(text='Coq theorems over the GENERATED locate_slice (re-translated from indexing.py on every run): unbounded bridge + bounding-box theorem for increasing axes and positive steps (bounds = searchsorted counts, which delimit exactly the labels in [lo,hi]); Python slice positions; plus kernel-checked finite sweeps (vm_compute, bounds stated in the theorem) of generated code = declarative specification over the quantifier\'s whole monotonic grid (both directions, lengths 0-5, steps None,1,2,3,-1,-2) and over all str / non-monotonic axes of length <= 4 (strict rule).',
              note='Negative steps, decreasing axes and the strict rule are proved on the finite grid only (stated in the theorems); np.searchsorted modelled by its contract on sorted input; locate_one hand-modelled.', tech='py2coq translation of locate_slice + Coq bridge/bounding-box proofs + vm_compute sweeps', ref='3.2')
+CLAIMED['C01'] = dict(text='Coq theorems (unbounded): first-match/IndexError specification of scalar label lookup; soundness of the argsort+searchsorted+clip+guard list lookup (every returned position carries exactly the requested label, any failure is IndexError, so clip never silently returns a neighbour); masks; the main orthogonal-sampling theorem for every index form (element at result coordinate c = input element at the independently resolved per-dimension positions, scalar dims dropped, kept axes relabelled in requested order, metadata kept, result well-formed). Position mode and slices go through the same theorem (slices through the generated locate_slice of C02).',
+             note='Completeness of the list lookup (all labels present implies success) and the tolerance search are validated by correspondence + oracle only, not proved; orthogonal_indexer/np.ix_ modelled by specification (np_outer).', tech='Coq proof over tabulate/get model + vm_compute correspondence', ref='3.1')
 NOT_YET = {}
 ALL = ['C%02d' % i for i in range(1, 21)]
 def main():
